@@ -66,6 +66,9 @@ def graphs(tier):
                   extra_stocks=[("S2", "s1", ["f2"], [])]))
     out.append(mk("gf-of-stock", [("f1", True, ("id", "g2"))], ["f1"], []))
     out[-1][1]["gf"] = gf + [("g2", SID, (0.0, 10.0), ["z0", "z1", "z2"])]
+    # a graphical function with explicit, unevenly spaced x points (<xpts>)
+    out.append(mk("gf-xpts", [("f1", True, ("id", "g3"))], ["f1"], []))
+    out[-1][1]["gf"] = gf + [("g3", ("time",), (0.0, 0.5, 1.0, 4.0), ["w0", "w1", "w2", "w3"])]
     return out
 
 
@@ -115,6 +118,8 @@ def to_stmx(desc, start, stop, dt_xml):
 
 def gf_points(xs, ys):
     n = len(ys)
+    if len(xs) > 2:
+        return list(zip(xs, ys))                 # explicit x points (<xpts>), one per y value
     return [(xs[0] + (xs[1] - xs[0]) * i / (n - 1), y) for i, y in enumerate(ys)]
 
 
@@ -286,7 +291,11 @@ def run_pair(desc, spec, mode, scratch, env=None):
         orig = xm.equations[name_key[s]]
         xm.equations[name_key[s]] = (lambda o, v: (lambda t: v if t <= xm.starttime else o(t)))(orig, leaf(init))
     for g, inp, xs, ys in desc["gf"]:
-        xm.points[name_key[g]] = [(x, leaf(y)) for (x, _), y in zip(gf_points(xs, ys), ys)]
+        # only the y values are replaced by symbols: the x points stay the ones the REAL parser derived from the document
+        parsed = list(xm.points[name_key[g]])
+        if len(parsed) != len(ys):
+            raise KeyError("graphical function %s has %d points in the transpiled model, the document lists %d" % (g, len(parsed), len(ys)))
+        xm.points[name_key[g]] = [(float(px), leaf(y)) for (px, _), y in zip(parsed, ys)]
     for k_ in xm.memo:
         xm.memo[k_] = {}                     # the key probing above memoised probe values
     dm = build_dsl(desc, start, ts[-1], dtv, leaf)
